@@ -58,6 +58,8 @@ def check(prog: Program, rep):
     semantic.flag_consumers(prog, rep, "C08.R2", MODELS)
     for c in MODELS:
         semantic.helper_preconditions(prog, rep, "C08.R2", c)
+    from rules.common import helpers_exact
+    helpers_exact(prog, rep, "C08.R2", piecewise=True)
     providers.declared_before_used(prog, rep, "C08.R2", MODELS)
     providers.wmax_provider(prog, rep, "C08.R2", MODELS)
     providers.numeric_type(prog, rep, "C08.R2", MODELS)
@@ -66,3 +68,6 @@ def check(prog: Program, rep):
     rep.rule("C08.R4", "the ignore set and options derive only from this call's arguments (no write to caller objects or shared defaults)", floor=6)
     from rules.c18 import class_inputs_not_mutated
     class_inputs_not_mutated(prog, rep, "C08.R4", MODELS)
+    rep.rule("C08.R5", "node-weighted input: expansion scheme, attribute handling (missing => ignored, present incl. 0 => weighted)", floor=12)
+    from rules.common import node_mode_plumbing
+    node_mode_plumbing(prog, rep, "C08.R5")
